@@ -321,7 +321,12 @@ func (g *Group) Search(prefix string, cmp SearchFunc) (*GroupReader, bool, error
 		}
 		foundIndex, line, err := scanNext(r, prefix)
 		r.Close()
-		if err != nil {
+		if err == io.EOF {
+			// No line with prefix from curIndex up to the head:
+			// the line, if it exists, is in an earlier file.
+			maxIndex = curIndex - 1
+			continue
+		} else if err != nil {
 			return nil, false, err
 		}
 
